@@ -106,6 +106,7 @@ pub fn gen_case(rng: &mut Rng) -> (CtxCase, Vec<usize>) {
     let mut case = ctxgen::gen_case(rng);
     if case.cfg.term == Term::Nul {
         case.cfg.term = Term::Lf;
+        case.pattern = case.pattern.replace("\\x00", "\\n");
         for b in case.input.iter_mut() {
             if *b == 0 {
                 *b = b'\n';
